@@ -32,6 +32,9 @@ pub struct Opts {
     pub out: bool,
     pub permute: u16,
     pub tie_first: bool,
+    /// capacity of the bounded channels between convert's stages (hook ADLT_VERIF_CHANNEL_CAP): 0 = as built
+    #[serde(default)]
+    pub chan_cap: u8,
 }
 #[derive(Clone, Debug, Serialize, Deserialize)]
 pub struct Case {
@@ -178,11 +181,48 @@ impl Drop for Sandbox {
 }
 
 pub fn run_convert(args: &[String]) -> Result<(String, String), String> {
-    let o = std::process::Command::new(crate::engine::adlt_bin()).arg("convert").args(args).env("TZ", "UTC").env("RAYON_NUM_THREADS", "1").output().map_err(|e| format!("cannot run {}: {}", crate::engine::adlt_bin().display(), e))?;
-    let stdout = String::from_utf8_lossy(&o.stdout).into_owned();
-    let stderr = String::from_utf8_lossy(&o.stderr).into_owned();
-    if !o.status.success() {
-        return Err(format!("adlt convert {:?} exited with {:?}; stderr: {}", args, o.status, stderr.chars().take(600).collect::<String>()));
+    run_convert_env(args, &[])
+}
+
+/// runs `adlt convert`; output through files (no pipe can fill up), bounded wait: a convert that does not end
+/// within 120 s on these inputs (a few hundred messages) hangs and is reported as failure of the case
+pub fn run_convert_env(args: &[String], envs: &[(&str, String)]) -> Result<(String, String), String> {
+    static NR: std::sync::atomic::AtomicUsize = std::sync::atomic::AtomicUsize::new(0);
+    let base = crate::engine::tmp_dir().join(format!("convert_{}_{}", std::process::id(), NR.fetch_add(1, std::sync::atomic::Ordering::Relaxed)));
+    let (po, pe) = (base.with_extension("out"), base.with_extension("err"));
+    let fo = std::fs::File::create(&po).map_err(|e| e.to_string())?;
+    let fe = std::fs::File::create(&pe).map_err(|e| e.to_string())?;
+    let mut cmd = std::process::Command::new(crate::engine::adlt_bin());
+    cmd.arg("convert").args(args).env("TZ", "UTC").env("RAYON_NUM_THREADS", "1").env_remove("ADLT_VERIF_CHANNEL_CAP").stdin(std::process::Stdio::null()).stdout(fo).stderr(fe);
+    for (k, v) in envs {
+        cmd.env(k, v);
+    }
+    let mut child = cmd.spawn().map_err(|e| format!("cannot run {}: {}", crate::engine::adlt_bin().display(), e))?;
+    let end = std::time::Instant::now() + std::time::Duration::from_secs(120);
+    let status = loop {
+        match child.try_wait() {
+            Ok(Some(st)) => break Some(st),
+            Ok(None) => {
+                if std::time::Instant::now() > end {
+                    let _ = child.kill();
+                    let _ = child.wait();
+                    break None;
+                }
+                std::thread::sleep(std::time::Duration::from_millis(2));
+            }
+            Err(e) => return Err(format!("wait failed: {}", e)),
+        }
+    };
+    let stdout = String::from_utf8_lossy(&std::fs::read(&po).unwrap_or_default()).into_owned();
+    let stderr = String::from_utf8_lossy(&std::fs::read(&pe).unwrap_or_default()).into_owned();
+    let _ = std::fs::remove_file(&po);
+    let _ = std::fs::remove_file(&pe);
+    let status = match status {
+        Some(s) => s,
+        None => return Err(format!("adlt convert {:?} (env {:?}) did not end within 120 s; stderr: {}", args, envs, stderr.chars().take(600).collect::<String>())),
+    };
+    if !status.success() {
+        return Err(format!("adlt convert {:?} exited with {:?}; stderr: {}", args, status, stderr.chars().take(600).collect::<String>()));
     }
     if stderr.contains("panicked") {
         return Err(format!("adlt convert {:?} panicked: {}", args, stderr.chars().take(600).collect::<String>()));
@@ -346,7 +386,13 @@ fn check(c: &Case, rep: &mut Rep) -> Result<(), String> {
     let order: Vec<usize> = (0..files.len()).collect();
     let mut a1 = args.clone();
     a1.extend(name_args(&order));
-    let (stdout, _) = run_convert(&a1)?;
+    // small channels between the stages of convert: a full channel may delay but never change the result
+    let envs: Vec<(&str, String)> = match o.chan_cap % 4 {
+        0 => vec![],
+        k => vec![("ADLT_VERIF_CHANNEL_CAP", [1usize, 4, 64][k as usize - 1].to_string())],
+    };
+    rep.label_if(!envs.is_empty(), "small_channels");
+    let (stdout, _) = run_convert_env(&a1, &envs)?;
 
     let exp_lines: Vec<String> = if style == 0 { vec![] } else { sel.iter().map(|m| expected_line(m, style)).collect() };
     let got_lines: Vec<String> = if style == 0 { vec![] } else { stdout.lines().map(|l| l.to_string()).collect() };
@@ -427,7 +473,7 @@ fn check(c: &Case, rep: &mut Rep) -> Result<(), String> {
                 let first_out = if want_out { std::fs::read(&out_file).ok() } else { None };
                 let mut a2 = args.clone();
                 a2.extend(name_args(&perm));
-                let (stdout2, _) = run_convert(&a2)?;
+                let (stdout2, _) = run_convert_env(&a2, &envs)?;
                 ensure!(stdout2 == stdout, "naming the input files in a different order ({:?}) changes the output", perm);
                 if want_out {
                     ensure!(std::fs::read(&out_file).ok() == first_out, "naming the input files in a different order changes the -o file");
@@ -603,7 +649,7 @@ fn tie_case() -> impl Strategy<Value = Case> {
                     Group { ecus: vec![EcuTrace { ecu: 0, start_off_us: gi as u64 * 1000, boots: vec![Boot { off_us: 1000, delay_us: 0, msgs }] }], choices: vec![], split: None, garbage: vec![] }
                 })
                 .collect();
-            Case { groups, opts: Opts { window, lcs: None, eac: vec![], ffile: 0, ffilters: vec![], conv_pairs: vec![], sort: false, style, out: true, permute, tie_first: false } }
+            Case { groups, opts: Opts { window, lcs: None, eac: vec![], ffile: 0, ffilters: vec![], conv_pairs: vec![], sort: false, style, out: true, permute, tie_first: false, chan_cap: (permute % 4) as u8 } }
         })
 }
 
@@ -612,9 +658,9 @@ pub fn def(tier: Tier) -> PropertyDef {
         (prop::option::weighted(0.5, (any::<u16>(), any::<u16>())), prop::option::weighted(0.4, prop::collection::vec(any::<u16>(), 1..3))),
         prop::collection::vec(eac_af(), 0..3),
         (0u8..3, prop::collection::vec(prop_oneof![3 => simple_trace_af().boxed(), 1 => trace_af().boxed()], 1..4), prop::collection::vec((0u8..4, 0u8..4), 1..3)),
-        (prop::bool::weighted(0.3), 0u8..4, any::<bool>(), any::<u16>(), prop::bool::weighted(0.12)),
+        (prop::bool::weighted(0.3), 0u8..4, any::<bool>(), any::<u16>(), prop::bool::weighted(0.12), prop_oneof![3 => Just(0u8), 1 => Just(1u8), 1 => Just(2u8), 1 => Just(3u8)]),
     )
-        .prop_map(|((window, lcs), eac, (ffile, ffilters, conv_pairs), (sort, style, out, permute, tie_first))| Opts { window, lcs, eac, ffile, ffilters, conv_pairs, sort, style, out, permute, tie_first });
+        .prop_map(|((window, lcs), eac, (ffile, ffilters, conv_pairs), (sort, style, out, permute, tie_first, chan_cap))| Opts { window, lcs, eac, ffile, ffilters, conv_pairs, sort, style, out, permute, tie_first, chan_cap });
     let case = (prop::collection::vec(group_strategy(3, 12), 1..4), opts).prop_map(|(groups, opts)| Case { groups, opts });
     PropertyDef {
         id: "C14",
@@ -630,7 +676,7 @@ pub fn def(tier: Tier) -> PropertyDef {
             .shrink_iters(150)
             .slow()
             .boxed(),
-            sub("cross_group_ties", tier.pick(250, 6_000), tie_case(), check).rates(&[("cross_group_tie", 0.8), ("permuted_arguments", 0.8)]).shrink_iters(100).slow().boxed(),
+            sub("cross_group_ties", tier.pick(250, 6_000), tie_case(), check).rates(&[("cross_group_tie", 0.8), ("permuted_arguments", 0.8), ("small_channels", 0.3)]).shrink_iters(100).slow().boxed(),
         ],
         workers: 16,
     }
